@@ -196,7 +196,7 @@ def _delete_no_object(it):
 
 
 scenario("delete_object: references without the data object", F + "delete_object",
-         ("C08",))(_delete_no_object)
+         ("C08", "C13"))(_delete_no_object)
 
 for _st in ("sole reference", "shared object"):
     scenario("delete_object: " + _st, F + "delete_object", ("C09", "C10", "C13", "C08"))(_delete(_st))
